@@ -90,6 +90,25 @@ func checkMapOrder(c *Ctx, rule string, fs []*ssa.Function) int {
 								}
 							}
 						}
+						// the same idiom on a FIELD of an outer record (list.keys = append(list.keys, key)): the
+						// record is an accumulator whose holder (often the caller, through sort.Sort on the record)
+						// orders it later; not followed here
+						if _, pth, ok := rootAlloc(x.Addr); ok && len(pth) > 0 {
+							if ap, isCall := x.Val.(*ssa.Call); isCall && calleeName(ap) == "builtin:append" {
+								if ld, isLoad := ap.Call.Args[0].(*ssa.UnOp); isLoad && ld.X == x.Addr {
+									unknowns = append(unknowns, "a list kept in a field of an outer record is appended to in map order at "+c.W.pos(x.Pos())+"; whether the record is sorted before it is used is not followed")
+									continue
+								}
+								if ld, isLoad := ap.Call.Args[0].(*ssa.UnOp); isLoad {
+									if fa1, ok1 := ld.X.(*ssa.FieldAddr); ok1 {
+										if fa2, ok2 := x.Addr.(*ssa.FieldAddr); ok2 && fa1.X == fa2.X && fa1.Field == fa2.Field {
+											unknowns = append(unknowns, "a list kept in a field of an outer record is appended to in map order at "+c.W.pos(x.Pos())+"; whether the record is sorted before it is used is not followed")
+											continue
+										}
+									}
+								}
+							}
+						}
 						if _, _, ok := rootAlloc(x.Addr); ok {
 							// store to an outer local: last-writer-wins depends on order unless it's an accumulator pattern; be conservative
 							problems = append(problems, "store to an outer variable in map order at "+c.W.pos(x.Pos()))
